@@ -80,3 +80,12 @@ func (st *StateDB) VerifC09InIndex(addr common.Address) bool {
 
 // VerifC09LogSize returns the block-wide log counter.
 func (st *StateDB) VerifC09LogSize() uint { return st.logSize }
+
+// VerifC09DelegationBalance reads Account.DelegationBalance without loading the delegation list.
+func (st *StateDB) VerifC09DelegationBalance(addr common.Address) *big.Int {
+	o := st.getDeletedStateObject(addr)
+	if o == nil {
+		return new(big.Int)
+	}
+	return new(big.Int).Set(o.data.DelegationBalance)
+}
